@@ -313,3 +313,36 @@ func VerifC25_http1Forward() {
 	}
 	vrt.Assert(len(m.fields) == total, "C25/forward-no-extra-fields")
 }
+
+// VerifC25_writeValueInterior: the value sanitising of Header.WriteSubset on the *interior* of a value
+// (VerifC25_writeField's short values are all leading/trailing positions, which TrimString also handles):
+// a field "X-A" whose value is 'a' ++ 1..K symbolic bytes (every byte value) ++ 'b', written with the real
+// Request.Write. Same oracle as VerifC25_writeField.
+func VerifC25_writeValueInterior() {
+	mid := vrt.Bytes("mid", vrt.Range("mlen", 1, vrt.Param("K", 2)))
+	value := append(append([]byte("a"), mid...), 'b')
+	req := &Request{
+		Method: "GET", URL: &url.URL{Path: "/p"}, RequestURI: "/p",
+		Proto: "HTTP/1.1", ProtoMajor: 1, ProtoMinor: 1, Host: "h",
+		Header: Header{"X-A": {string(value)}},
+		State:  &RequestState{},
+	}
+	vrt.Known("C25-control-byte-in-value-written", !isValueC25(sanitisedC25(value)))
+
+	var wire bytes.Buffer
+	if err := req.Write(&wire); err != nil {
+		vrt.Cover("C25/write-refused")
+		return
+	}
+	out := wire.Bytes()
+	m, n, ok := strictParseC25(out)
+	vrt.Assert(ok, "C25/interior-written-request-well-formed")
+	if !ok {
+		return
+	}
+	vrt.Assert(n == len(out), "C25/interior-written-exactly-one-request")
+	vrt.Assert(string(m.method) == "GET" && string(m.target) == "/p", "C25/interior-written-request-line")
+	v, c := findFieldC25(m.fields, []byte("X-A"))
+	vrt.Assert(c == 1 && bytes.Equal(v, sanitisedC25(value)), "C25/interior-written-field-preserved")
+	vrt.Assert(len(m.fields) == 2, "C25/interior-written-no-extra-fields")
+}
